@@ -17,7 +17,7 @@ JOBS = {'quick': 4, 'thorough': 16}
 REQUIRED_MONITORS = ('trace_checked', 'metropolis_direct', 'acceptance_draw_observed', 'ring_moves_checked')
 REQUIRED_CLASSES = ('types:(0,)', 'types:(1,)', 'types:(2,)', 'types:(0, 1, 2)', 'types:(0, 1)', 'budget:1', 'budget:2',
                     'budget:>=100', 'restraints:none', 'restraints:partial', 'restraints:all-fixed', 'restraints:mobile-in-order', 'worse-accepted',
-                    'worse-rejected', 'improved', 'units:small', 'units:large', 'proposal:non-finite-measure', 'mobile:multi-residue', 'proposal:translation', 'proposal:rotation', 'proposal:atom-move')
+                    'worse-rejected', 'improved', 'units:small', 'units:large', 'proposal:non-finite-measure', 'mobile:multi-residue', 'bond-table:keys-in-another-order', 'proposal:translation', 'proposal:rotation', 'proposal:atom-move')
 RULE = ('runs of minimize_molecules over (mobile molecule: random tree / cyclic graph 1..25 atoms) x (fixed set 1..40 points) '
         'x deformation-type subset x step budget {1,2,3,10,100,2000, random} x restraint class x seed. Every step of every run '
         'is checked. Non-trivial run: at least one accepted and one rejected proposal. distinct = distinct (n_mobile, n_fixed, '
@@ -126,6 +126,11 @@ def run_run(ctx, case):
         budget = max(budget, 60)
     bonds = mob.bonds_distance if nm > 1 else {}
     initial = np.array(mob.atoms_positions)
+    if bonds and i % 2:
+        # same table, keys inserted in another order (a dict filled by hand from an unsorted bond list)
+        keys = [list(bonds)[int(k)] for k in rng.permutation(len(bonds))]
+        bonds = {k: list(bonds[k]) for k in keys}
+        ctx.hit('bond-table:keys-in-another-order')
     # length unit of the whole problem: nm, Angstrom-like (x10), micrometres (x1e-3), 1e-5 and 1e3
     unit = 1.0 if i % 5 else float([1e-3, 1e-5, 10.0, 1e3, 1e-4][(i // 5) % 5])
     if unit != 1.0:
